@@ -123,6 +123,13 @@ impl Ident {
             bail!("this variable does not have a type; it can't be wrapped in a callback")
         };
 
+        // a name that an enclosing closure already addresses as a captured variable (it was the
+        // target of a `modify` there) is captured once, not twice
+        if ty.is_directly_callback_variable() {
+            self.ty = Some(ty);
+            return Ok(self);
+        }
+
         self.ty = Some(Cow::Owned(TypeLayout::CallbackVariable(
             ty.into_owned().into(),
         )));
